@@ -1442,14 +1442,20 @@ func (r *reedSolomon) reconstruct(shards [][]byte, dataOnly bool, required []boo
 	numberPresent := 0
 	dataPresent := 0
 	missingRequired := 0
+	// parityRequired is set if a missing parity shard is requested.
+	// All data shards are needed to recompute parity.
+	parityRequired := false
 	for i := 0; i < r.totalShards; i++ {
 		if len(shards[i]) != 0 {
 			numberPresent++
 			if i < r.dataShards {
 				dataPresent++
 			}
-		} else if required != nil && required[i] {
+		} else if required != nil && i < len(required) && required[i] {
 			missingRequired++
+			if i >= r.dataShards {
+				parityRequired = true
+			}
 		}
 	}
 	if numberPresent == r.totalShards || dataOnly && dataPresent == r.dataShards ||
@@ -1531,7 +1537,7 @@ func (r *reedSolomon) reconstruct(shards [][]byte, dataOnly bool, required []boo
 	outputCount := 0
 
 	for iShard := 0; iShard < r.dataShards; iShard++ {
-		if len(shards[iShard]) == 0 && (required == nil || required[iShard]) {
+		if len(shards[iShard]) == 0 && (required == nil || required[iShard] || parityRequired && !dataOnly) {
 			if cap(shards[iShard]) >= shardSize {
 				shards[iShard] = shards[iShard][0:shardSize]
 			} else {
